@@ -26,6 +26,7 @@ NEUTRALISED = {
     "C20-b": "same edit as C15-a (message/builder.go AddBlock); neutralised by fix b69a6ad; demonstration passes with the change on HEAD.",
     "C10-a": "neutralised by fix c220a91 (messages of another peer that carry the victim's request id never reach newRequest any more); its demonstration now stops in its own set-up ('peer B's refusal never went out') with and without the change. Detected by C10 before that fix.",
     "C10-b": "neutralised by fix c220a91 (a Cancel from another peer is dropped before abortRequest); demonstration passes with the change on HEAD. Detected by C10 before that fix.",
+    "C09-a": "its C09 effect is neutralised by fix 55f5b00 (the ownership test before the hooks no longer goes through the function the change rewires); what is left on HEAD is that PeerState lists the re-used id under the old peer (its demonstration fails on that assertion), which is outside C09. An earlier 'detection' by the id-reuse stage turned out to be the open finding C09/third-party-response-after-request-finished firing on the unchanged tree as well; the stage now classifies sightings by whether the re-issued request was in progress.",
 }
 rows = []
 for sid in sorted(os.listdir(os.path.join(ROOT, "seeded"))):
